@@ -61,23 +61,21 @@ def DATEDIF(
     datetime_start_date = utils.number_to_datetime(int(start_date))
     datetime_end_date = utils.number_to_datetime(int(end_date))
 
+    # Complete months: a month counts once the day of the month is reached
+    # again (rrule would skip the months that lack a day 29, 30 or 31).
+    months = (
+        (datetime_end_date.year - datetime_start_date.year) * 12
+        + datetime_end_date.month - datetime_start_date.month
+        - (1 if datetime_end_date.day < datetime_start_date.day else 0))
+
     if str(unit).upper() == 'Y':
-        date_list = list(rrule.rrule(rrule.YEARLY,
-                                     dtstart=datetime_start_date,
-                                     until=datetime_end_date))
-        return len(date_list) - 1  # end of day to end of day / "full days"
+        return months // 12
 
     elif str(unit).upper() == 'M':
-        date_list = list(rrule.rrule(rrule.MONTHLY,
-                                     dtstart=datetime_start_date,
-                                     until=datetime_end_date))
-        return len(date_list) - 1  # end of day to end of day / "full days"
+        return months
 
     elif str(unit).upper() == 'D':
-        date_list = list(rrule.rrule(rrule.DAILY,
-                                     dtstart=datetime_start_date,
-                                     until=datetime_end_date))
-        return len(date_list) - 1  # end of day to end of day / "full days"
+        return (datetime_end_date - datetime_start_date).days
 
     elif str(unit).upper() == 'MD':
         modified_datetime_start_date = datetime_start_date.replace(year=1900,
